@@ -533,7 +533,42 @@ def r8_blueprint_file_is_current(ctx):
     whole_content_hashed(ctx, 'C19.R8')
 
 
+def r9_flags_are_written_as_given(ctx):
+    ctx.rule('C19.R9', 'P5 on the attribute macros (proc-macro crate MIR, quote! templates read from the code): whether a `key = value` property is '
+             'written into the `#[diagnostic::pavex::..]` attribute depends on whether the user gave the flag (Option / bool tests) and never on '
+             'WHICH value of one of the macro crate\'s own enums it has: leaving out a value "because it is the default" relies on the compiler '
+             'applying the same default for every kind of component, which it does not (config types default to clone-if-necessary, constructors '
+             'to never-clone).')
+    from ..quote import chains
+    from ..govern import controlling_switches
+    MC = ('pavex_macros', 'ProcMacro')
+    if MC not in ctx.fb.available():
+        ctx.need('C19.R9', 'fact file of the proc-macro crate pavex_macros', None)
+        return
+    n = 0
+    for b in ctx.fb.bodies(*MC):
+        if b.is_promoted:
+            continue
+        for ch in chains(b):
+            toks = [t for _, t in ch]
+            keys = [str(toks[i][1]) for i in range(len(toks) - 1) if toks[i][0] == 'ident' and toks[i + 1][0] == 'punct' and str(toks[i + 1][1]) == '='
+                    and str(toks[i][1])[:1].islower()]
+            if not keys:
+                continue
+            lo = min(bb for bb, _ in ch)
+            n += 1
+            by_value = sorted({strip_generics(w['enum']).split('::')[-1] for sb, w in controlling_switches(b, lo)
+                               if strip_generics(w.get('enum', '')).startswith('pavex_macros::')})
+            if by_value:
+                ctx.ob('C19.R9', 'written-as-given|%s|%s' % (b.nid.replace('pavex_macros::', ''), keys[0]), False, b.loc(lo),
+                       'the emission of `%s = ..` is decided by the value of %s: for some values the user\'s choice is not written into the attribute' % (keys[0], by_value))
+    ctx.floor('C19.R9', 'property emissions in the attribute macros', n, 20)
+    ctx.ob('C19.R9', 'no-value-dependent-omission', not [o for o in ctx.obs if o.rule == 'C19.R9' and o.key.startswith('written-as-given') and not o.ok], '',
+           '%d `key = value` emission templates scanned in pavex_macros' % n)
+
+
 def check(ctx):
+    r9_flags_are_written_as_given(ctx)
     r8_blueprint_file_is_current(ctx)
     r1_schema_symmetry(ctx)
     s2v = r2_conversions(ctx)
